@@ -88,8 +88,10 @@ fn parse_hex_key(s: &str) -> Result<[u8; KEY_SIZE], KeyParseError> {
     if s.len() == KEY_SIZE * 2 {
         let mut r = [0u8; KEY_SIZE];
         for i in 0..KEY_SIZE {
-            r[i] = u8::from_str_radix(&s[i * 2..i * 2 + 2], 16)
-                .map_err(KeyParseError::InvalidKeyChar)?;
+            // `s` may contain multi-byte characters, in which case `i * 2` need not be a char
+            // boundary: `get` returns `None` instead of panicking, and such a pair is not hex.
+            let pair = s.get(i * 2..i * 2 + 2).unwrap_or("\u{fffd}");
+            r[i] = u8::from_str_radix(pair, 16).map_err(KeyParseError::InvalidKeyChar)?;
         }
         Ok(r)
     } else {
